@@ -215,15 +215,16 @@ Lemma nd_global_id_tail name h : nd (fun s =>
     | Some (id, ids, nv) =>
         let k := handle_from_u32 id in
         match nm_find k (cs_names s) with
-        | Some _ => ROk id (set_vars ids (cs_names s) nv s)
+        | Some nm => name_checked nm name id (set_vars ids (cs_names s) nv s)
         | None =>
             if ht_entry_hangs (cs_names s) then RDiverge
             else ROk id (set_vars ids (nm_insert k name (cs_names s)) nv s)
         end
     end).
 Proof.
-  intros s. cbv zeta. rewrite !ht_entry_never_hangs.
-  destruct (nm_find h (cs_ids s)); destruct (nm_find _ (cs_names s)); discriminate.
+  intros s. cbv zeta. rewrite !ht_entry_never_hangs. unfold name_checked.
+  destruct (nm_find h (cs_ids s)); destruct (nm_find _ (cs_names s));
+    try destruct (global_name_checked && _); discriminate.
 Qed.
 
 Ltac nd_go :=
@@ -674,8 +675,9 @@ Lemma np_global_id dbg fh js idx name :
 Proof.
   intros H. unfold global_id. apply np_cost with (c := 0 + 0); [|lia].
   eapply np_bind; [apply np_hfb, H | intros h _].
-  nocode. cbv zeta. rewrite !ht_entry_never_hangs.
-  destruct (nm_find h (cs_ids s)); destruct (nm_find _ (cs_names s)); nocode_done HI.
+  nocode. cbv zeta. rewrite !ht_entry_never_hangs. unfold name_checked.
+  destruct (nm_find h (cs_ids s)); destruct (nm_find _ (cs_names s));
+    try destruct (global_name_checked && _); nocode_done HI.
 Qed.
 
 (* S1 *)
